@@ -4,16 +4,17 @@ Applies the patch to /repo (working tree only), runs `./check Cnn --tier quick` 
 (default: all), restores /repo, prints which checks raised an alarm.  Never commits anything."""
 import json, os, subprocess, sys, time
 ROOT = os.path.dirname(os.path.dirname(os.path.abspath(__file__)))
+REPO = os.environ.get("VERIF_REPO", "/repo")   # an isolated copy may be used (harness/Cargo.toml of that copy must point at it)
 
 
 def main():
     patch = os.path.abspath(sys.argv[1])
     props = sys.argv[2:] or ["C%02d" % i for i in range(1, 18)]
-    st = subprocess.run(["git", "-C", "/repo", "status", "--porcelain"], stdout=subprocess.PIPE, text=True).stdout.strip()
+    st = subprocess.run(["git", "-C", REPO, "status", "--porcelain"], stdout=subprocess.PIPE, text=True).stdout.strip()
     if st:
-        print("refusing: /repo working tree is not clean:\n" + st)
+        print("refusing: the repository working tree is not clean:\n" + st)
         return 2
-    r = subprocess.run(["git", "-C", "/repo", "apply", patch], stdout=subprocess.PIPE, stderr=subprocess.STDOUT, text=True)
+    r = subprocess.run(["git", "-C", REPO, "apply", patch], stdout=subprocess.PIPE, stderr=subprocess.STDOUT, text=True)
     if r.returncode != 0:
         print("patch does not apply: " + r.stdout)
         return 2
@@ -27,7 +28,7 @@ def main():
             res[p] = dict(exit=q.returncode, violations=vio[:3], wall=round(time.time() - t0, 1))
             print("%s exit=%d %s (%.0fs)" % (p, q.returncode, vio[:1], time.time() - t0), flush=True)
     finally:
-        subprocess.run(["git", "-C", "/repo", "checkout", "--", "."])
+        subprocess.run(["git", "-C", REPO, "checkout", "--", "."])
         subprocess.run([sys.executable, os.path.join(ROOT, "tools", "translate.py")], stdout=subprocess.DEVNULL)
     caught = [p for p, v in res.items() if v["exit"] != 0]
     print(json.dumps(dict(patch=patch, caught_by=caught, results=res)))
